@@ -110,7 +110,7 @@ CHECKS = {
         "level": "model_checking",
         "engine": "E2",
         "technique": "exhaustive enumeration of metric batch histories on the real storage vs reference registry (full Gather() comparison)",
-        "level_text": "Every history of 1-2 (thorough: up to 3) batches of 1-2 (thorough: 3) operation documents from a 21-operation alphabet (ungrouped add/set/observe, grouped add/set/expire, add/set shortcuts, integer and fractional values, label sets of different shape, names reused across groups and outside groups, six invalid variants), sent by two hooks through the real JSON parser and the real SendBatch; (the JSON stream laid out one value per line, several on a line, or spread over lines) after every batch the complete Gather() output of the registry is compared with a reference registry written from the statement; an invalid operation must give an error and leave the registry untouched. Empty label values, the {PREFIX} template in grouped metrics and a non-empty storage prefix are in the alphabet. Batches in which a group's operations are separated by another group's or an ungrouped operation (A, x, A) are included, alone and after a batch that left series behind.",
+        "level_text": "Every history of 1-2 (thorough: up to 3) batches of 1-2 (thorough: 3) operation documents from a 21-operation alphabet (ungrouped add/set/observe, grouped add/set/expire, add/set shortcuts, integer and fractional values, label sets of different shape, names reused across groups and outside groups, six invalid variants), sent by two hooks through the real JSON parser and the real SendBatch; (the JSON stream laid out one value per line, several on a line, or spread over lines) after every batch the complete Gather() output of the registry is compared with a reference registry written from the statement; an invalid operation must give an error and leave the registry untouched. Empty label values, the {PREFIX} template in grouped metrics and a non-empty storage prefix are in the alphabet. Batches in which a group's operations are separated by another group's or an ungrouped operation (A, x, A) are included, alone and after a batch that left series behind. Label values with a non-ASCII letter at different positions are in the alphabet.",
         "level_note": "Trusted: prometheus client (Gather), the reference registry in the harness. Identical series (same name and labels) reported under two different groups are left out of the space: an exposition cannot hold both and the statement does not say which wins.",
         "rule": "product enumeration of batches from the alphabet x hooks; non-trivial = history of >= 2 batches; distinct = distinct final registry",
         "parts": [
@@ -182,7 +182,7 @@ CHECKS = {
         "level": "model_checking",
         "engine": "E1",
         "technique": "exhaustive enumeration of fault sequences on the assembled operator under the controlled scheduler with virtual time (thorough: plus delay-bounded schedule exploration)",
-        "level_text": "Every fault sequence from {onStartup, Synchronization, Event, Schedule, combined Schedule+Event task} x k in 0..3 consecutive failures x {non-zero exit, malformed metrics, malformed patch, patch that cannot be applied} x the allowFailure values of the bindings involved is run through the real operator (queues, combine, taskHandleHookRun, handleRunHook, metric storage, object patcher on the fake cluster) with a blocker task ahead and a later task behind it, on the virtual clock. Oracle: k+1 attempts with the same contexts (never fewer), each at least the initial delay (5 s virtual) after the failure, nothing else of the queue in between, the later task afterwards; with failure allowed by every binding involved a single attempt; a context of a binding that does not allow failure is never discarded after a failed run; no Event before the successful Synchronization. Failure kinds include malformed admission / conversion response files left behind by an ordinary run.",
+        "level_text": "Every fault sequence from {onStartup, Synchronization, Event, Schedule, combined Schedule+Event task} x k in 0..3 consecutive failures x {non-zero exit, malformed metrics, malformed patch, patch that cannot be applied} x the allowFailure values of the bindings involved is run through the real operator (queues, combine, taskHandleHookRun, handleRunHook, metric storage, object patcher on the fake cluster) with a blocker task ahead and a later task behind it, on the virtual clock. Oracle: k+1 attempts with the same contexts (never fewer), each at least the initial delay (5 s virtual) after the failure, nothing else of the queue in between, the later task afterwards; with failure allowed by every binding involved a single attempt; a context of a binding that does not allow failure is never discarded after a failed run; no Event before the successful Synchronization. Failure kinds include malformed admission / conversion response files left behind by an ordinary run. One family has two schedule bindings with the same name and different allowFailure.",
         "level_note": "Trusted: scheduler and virtual clock, process stand-in (writes the real output files), hub, fake cluster. Quick explores the default schedule of each fault sequence; thorough adds all schedules with one deviation.",
         "rule": "product enumeration of fault sequences; non-trivial = k >= 1; distinct = distinct execution list",
         "parts": [
@@ -194,7 +194,7 @@ CHECKS = {
         "level": "model_checking",
         "engine": "E2+E1",
         "technique": "exhaustive enumeration of ORDER assignments on the real hook manager; stateless model checking (delay-bounded) of operator start-up over generated hook sets and start-up failures",
-        "level_text": "Part a: GetHooksInOrder(OnStartup) on a real Manager for every assignment of ORDER in {1,2,3} to 1..9 (10) hooks and of ORDER in {1,2} to 13,14 (..17) hooks; oracle: ascending ORDER, ties in path order. Part b: the real Start() on generated hook sets (1-3 hooks from a menu mixing onStartup, kubernetes bindings with and without group, executeHookOnSynchronization false, a v0 hook, schedules, a named queue; plus a group whose first / last binding has executeHookOnSynchronization false, a group whose bindings are not declared next to each other, two ungrouped kubernetes bindings, two ungrouped bindings with the second in a named queue, and sets in which the first LIST for the second binding fails so that enabling the bindings is retried) with an environment firing ticks and cluster changes from the very first moment and with the j-th start-up execution failing k in {0,1,2} times; all schedules within the delay bound; oracle on the execution log: onStartup hooks exactly once in (ORDER, path) order before anything else, then per hook in path order each binding's Synchronization once (one execution per group, none when switched off or v0) in main, before any Event of that binding and before any Schedule task of that hook. Outside the start-up executions every context runs in the queue of its own binding (a start-up execution delivered twice is reported); hook shapes include a group whose bindings use a named queue.",
+        "level_text": "Part a: GetHooksInOrder(OnStartup) on a real Manager for every assignment of ORDER in {1,2,3} to 1..9 (10) hooks and of ORDER in {1,2} to 13,14 (..17) hooks; oracle: ascending ORDER, ties in path order. Part b: the real Start() on generated hook sets (1-3 hooks from a menu mixing onStartup, kubernetes bindings with and without group, executeHookOnSynchronization false, a v0 hook, schedules, a named queue; plus a group whose first / last binding has executeHookOnSynchronization false, a group whose bindings are not declared next to each other, two ungrouped kubernetes bindings, two ungrouped bindings with the second in a named queue, and sets in which the first LIST for the second binding fails so that enabling the bindings is retried) with an environment firing ticks and cluster changes from the very first moment and with the j-th start-up execution failing k in {0,1,2} times; all schedules within the delay bound; oracle on the execution log: onStartup hooks exactly once in (ORDER, path) order before anything else, then per hook in path order each binding's Synchronization once (one execution per group, none when switched off or v0) in main, before any Event of that binding and before any Schedule task of that hook. Outside the start-up executions every context runs in the queue of its own binding (a start-up execution delivered twice is reported); hook shapes include a group whose bindings use a named queue. Hook sets include pairs of byte-identical hooks and a copied hook with a named-queue binding whose start-up executions fail once.",
         "level_note": "Trusted: scheduler, hub, process stand-in, fake cluster, reference in the harness.",
         "rule": "product enumeration (part a); hook sets x failure injection x DFS over schedules within the bound (part b); non-trivial = ties in ORDER / a failure or deviation; distinct = distinct order / execution log",
         "parts": [
@@ -245,7 +245,7 @@ CHECKS = {
         "level": "model_checking",
         "engine": "E2",
         "technique": "exhaustive enumeration of operation-document streams x encodings x initial cluster states on the real parser and patcher vs a reference interpreter",
-        "level_text": "Every stream of 1-2 documents and a spread (thorough: all) of 3-document streams over 11-12 valid operations (Create / CreateIfNotExists / CreateOrUpdate, delete variants, MergePatch / JSONPatch / JQPatch, objects and patches inline and as strings, integer / float / bool fields, ignoreMissingObject) and 9 invalid documents (7 single-fault ones and a stray closing brace / bracket), written as a JSON stream and as a YAML stream, goes through the real ParseOperations and ObjectPatcher.ExecuteOperations on a fake cluster with the object absent or present. Oracle: an invalid document anywhere gives an error and an untouched cluster; otherwise the final cluster equals a reference interpreter applying the operations once each in order, an apply-time error is reported exactly when the reference predicts one, nothing panics, and both encodings decode to deep-equal operation specs (numeric types included). Plus CreateOrUpdate of string-only objects in 4 encodings against 5 existing states: the object ends exactly as the document says. Plus dependent documents: a kind that is served only once its definition exists (5 streams x 2 encodings) - the cluster must end as applying the documents one after another ends; JSONPatch with value-less and copy items. Plus a kind served by two API groups: all sequences of 2-3 documents over {patch alpha, patch beta, patch bare, delete bare, delete beta} x every split into two streams on one patcher - every document acts on the object it names (what a bare kind addresses is taken from a one-document stream on a fresh patcher).",
+        "level_text": "Every stream of 1-2 documents and a spread (thorough: all) of 3-document streams over 11-12 valid operations (Create / CreateIfNotExists / CreateOrUpdate, delete variants, MergePatch / JSONPatch / JQPatch, objects and patches inline and as strings, integer / float / bool fields, ignoreMissingObject) and 9 invalid documents (7 single-fault ones and a stray closing brace / bracket), written as a JSON stream and as a YAML stream, goes through the real ParseOperations and ObjectPatcher.ExecuteOperations on a fake cluster with the object absent or present. Oracle: an invalid document anywhere gives an error and an untouched cluster; otherwise the final cluster equals a reference interpreter applying the operations once each in order, an apply-time error is reported exactly when the reference predicts one, nothing panics, and both encodings decode to deep-equal operation specs (numeric types included). Plus CreateOrUpdate of string-only objects in 4 encodings against 5 existing states: the object ends exactly as the document says. Plus dependent documents: a kind that is served only once its definition exists (5 streams x 2 encodings) - the cluster must end as applying the documents one after another ends; JSONPatch with value-less and copy items. Plus a kind served by two API groups: all sequences of 2-3 documents over {patch alpha, patch beta, patch bare, delete bare, delete beta} x every split into two streams on one patcher - every document acts on the object it names (what a bare kind addresses is taken from a one-document stream on a fresh patcher). Every valid stream of two or more documents is also given as a YAML stream of JSON-notation documents and as a JSON document followed by YAML documents.",
         "level_note": "Trusted: the fake dynamic client as cluster, gojq, the reference interpreter. 'Invalid' is limited to the unmistakable faults of docs/src/KUBERNETES.md. Foreground Delete (polls with a real 1 s interval) only in the thorough tier; subresource is not exercised (the fake client ignores it).",
         "rule": "product enumeration of document streams x {absent, present}; non-trivial = more than one document; distinct = distinct (final cluster, error)",
         "parts": [
@@ -268,7 +268,7 @@ CHECKS = {
         "level": "model_checking",
         "engine": "E2+E1",
         "technique": "exhaustive enumeration of (exit code x contents of the four output files) with real processes; stateless model checking (pre-emption-bounded) of two concurrent executions of one hook",
-        "level_text": "Part a: a real /bin/sh hook, executed by the real executor through the operator's taskHandler, dumps its cwd, the six environment variables, the state of the prepared files and the binding-context file, writes scripted contents and exits with a scripted code: exit in {0,1,2,255, killed by SIGKILL, killed by SIGTERM} x each of metrics / patch / admission / conversion file in {untouched, valid, truncated, wrong type} (1536 cases, 1-3 contexts; the temp directory prepared by the operator's own EnsureTempDirectory, in every fifth case from a relative path). Oracle: cwd = hook directory, context file = the task's contexts, output files exist and are empty, file names never reused, non-zero exit or any malformed output fails the task, valid outputs take effect (object in the fake cluster, metric in the hook registry, responses on the task), temp dir empty afterwards in every case, one execution per task. Part b: two executions of the same hook from two threads with scheduling points at every os.* call of hook.go and inside the stand-in process, all interleavings within 2 (quick) / 3 (thorough) pre-emptions, one variant with a failing first execution: each execution reads back its own response, results are right, temp dir empty at the end. Every seventh case of part a prints 200 KB to stderr before it exits.",
+        "level_text": "Part a: a real /bin/sh hook, executed by the real executor through the operator's taskHandler, dumps its cwd, the six environment variables, the state of the prepared files and the binding-context file, writes scripted contents and exits with a scripted code: exit in {0,1,2,255, killed by SIGKILL, killed by SIGTERM} x each of metrics / patch / admission / conversion file in {untouched, valid, truncated, wrong type} (1536 cases, 1-3 contexts; the temp directory prepared by the operator's own EnsureTempDirectory, in every fifth case from a relative path). Oracle: cwd = hook directory, context file = the task's contexts, output files exist and are empty, file names never reused, non-zero exit or any malformed output fails the task, valid outputs take effect (object in the fake cluster, metric in the hook registry, responses on the task), temp dir empty afterwards in every case, one execution per task. Part b: two executions of the same hook from two threads with scheduling points at every os.* call of hook.go and inside the stand-in process, all interleavings within 2 (quick) / 3 (thorough) pre-emptions, one variant with a failing first execution: each execution reads back its own response, results are right, temp dir empty at the end. Every seventh case of part a prints 200 KB to stderr before it exits. Part b has a variant with two different hooks whose cleaned names coincide.",
         "level_note": "Trusted: /bin/sh, the fake cluster, the stand-in process in part b. Failures to create temp files (disk full) are outside the property and not injected.",
         "rule": "product enumeration (part a); DFS over interleavings within the bound (part b); non-trivial = any non-default file content or exit / a pre-emption; distinct = distinct (result, inputs) / results",
         "parts": [
@@ -294,7 +294,7 @@ CHECKS = {
         "level": "model_checking",
         "engine": "E2+E1",
         "technique": "exhaustive enumeration of cluster histories x monitor configurations on the real monitor/informer code vs reference sets (plus restart differential); stateless model checking of the start-up window and of concurrent snapshot reads inside one execution",
-        "level_text": "Part a: every history of up to 3 (quick) / 4 (thorough) steps over 16 operations (create / modify / delete of objects in three namespaces, a change outside the binding's projection, a labelled namespace deleted with its objects, a labelled namespace appearing) with synchronous delivery, for 14 monitor configurations (all namespaces | namespace.nameSelector | namespace.labelSelector x matchNames x jqFilter x keepFullObjectsInMemory, and three namespaces named in non-alphabetical order so that one monitor has several informers): after every step the real Snapshot() equals the reference computed from the cluster (same elements once each, sorted by namespace/name, projection, object presence and - when full objects are kept - the object's field outside the projection per item) and equals the snapshot of a fresh monitor on the same cluster (restart). Part b: environment changes interleaved by the scheduler with AddMonitor's LIST and StartMonitor's LIST (5 histories, bound 1/2): once quiet the snapshot equals the cluster. Part c: at operator level, hook executions whose contexts mention one binding several times (Synchronization objects, self-include, group, includeSnapshotsFrom from other bindings and queues) with informer deliveries interleaved: inside one execution every occurrence of a binding's snapshot is identical and the keys of snapshots are exactly the declared ones. The hub conformance part also stops one of two handlers that share an informer factory: the remaining one keeps following the cluster, in real client-go and in the hub alike.",
+        "level_text": "Part a: every history of up to 3 (quick) / 4 (thorough) steps over 16 operations (create / modify / delete of objects in three namespaces, a change outside the binding's projection, a labelled namespace deleted with its objects, a labelled namespace appearing) with synchronous delivery, for 14 monitor configurations (all namespaces | namespace.nameSelector | namespace.labelSelector x matchNames x jqFilter x keepFullObjectsInMemory, and three namespaces named in non-alphabetical order so that one monitor has several informers): after every step the real Snapshot() equals the reference computed from the cluster (same elements once each, sorted by namespace/name, projection, object presence and - when full objects are kept - the object's field outside the projection per item) and equals the snapshot of a fresh monitor on the same cluster (restart). Part b: environment changes interleaved by the scheduler with AddMonitor's LIST and StartMonitor's LIST (5 histories, bound 1/2): once quiet the snapshot equals the cluster. Part c: at operator level, hook executions whose contexts mention one binding several times (Synchronization objects, self-include, group, includeSnapshotsFrom from other bindings and queues) with informer deliveries interleaved: inside one execution every occurrence of a binding's snapshot is identical and the keys of snapshots are exactly the declared ones. The hub conformance part also stops one of two handlers that share an informer factory: the remaining one keeps following the cluster, in real client-go and in the hub alike. One configuration combines several names with a field selector (one informer per name, each with the binding's own field selector plus its name); the hub evaluates whole field selectors.",
         "level_note": "Trusted: hub (per-handler FIFO), fake cluster with a list reactor honouring metadata.name, reference sets. Configurations whose documented meaning is ambiguous are left out (nameSelector and labelSelector on one binding; two bindings with one name). Part hubconf: the informer hub used by every scheduler-controlled check is compared with real client-go shared informers started by the repository's own FactoryStore.Start / namespaceInformer.start: all histories up to depth 3 (quick) / 4 (thorough) over 12 operations x every registration moment of 1-2 handlers, identical per-handler callback sequences step by step (selector configurations: initial LIST only, the fake WATCH does not filter).",
         "rule": "product enumeration of histories x configurations (part a); DFS over interleavings within the bound (parts b, c); non-trivial = history of >= 2 steps / a deviation; distinct = distinct (configuration, snapshot)",
         "parts": [
